@@ -264,6 +264,55 @@ def generate(repo_root, die):
     out.append(f"def BAN_WINDOW : Nat := {val}")
     out.append("")
 
+    # ---- Peers::clean_peers / add_connected -------------------------------------------------------------------
+    m = re.search(r"pub fn clean_peers\((.*?)\n\t\}\n", peers, flags=re.S)
+    if not m:
+        die("gen_codec_peers: Peers::clean_peers not found")
+    cp = gd._strip_log_macros(gd._strip_comments(m.group(1)))
+    for _ in range(3):
+        cp = re.sub(r"\{\s*;", "{", cp)
+        cp = re.sub(r";\s*;", ";", cp)
+    chain = re.search(r"for peer in self\.iter\(\) \{\s*let ref peer: &Peer = peer\.as_ref\(\);\s*"
+                      r"if (peer\.is_banned\(\)) \{\s*rm\.push\(peer\.info\.addr\.clone\(\)\);\s*"
+                      r"\} else if (!peer\.is_connected\(\)) \{\s*rm\.push\(peer\.info\.addr\.clone\(\)\);\s*"
+                      r"\} else if (peer\.is_abusive\(\)) \{.*?let _ = self\.update_state\(peer\.info\.addr, State::(\w+)\);\s*rm\.push\(peer\.info\.addr\.clone\(\)\);\s*"
+                      r"\} else \{\s*let \(stuck, diff\) = peer\.is_stuck\(\);\s*match self\.adapter\.total_difficulty\(\) \{\s*"
+                      r"Ok\(total_difficulty\) => \{\s*if (stuck && diff (<|<=) total_difficulty) \{\s*"
+                      r"let _ = self\.update_state\(peer\.info\.addr, State::(\w+)\);\s*rm\.push\(peer\.info\.addr\.clone\(\)\);\s*\}\s*\}\s*"
+                      r"Err\(e\) => ,?\s*\}", cp, flags=re.S)
+    if not chain:
+        die("gen_codec_peers: clean_peers: the per-peer chain (banned / not connected / abusive / stuck) changed shape")
+    out.append("/-- `Peers::clean_peers`, the per-peer chain in source order: (condition, store update, removed) -/")
+    out.append('def cleanChain : List (String × String × Bool) := [' + ", ".join([
+        f'("{chain.group(1)}", "", true)', f'("{chain.group(2)}", "", true)', f'("{chain.group(3)}", "{chain.group(4)}", true)',
+        f'("{chain.group(5)}", "{chain.group(7)}", true)']) + "]")
+    out.append(f'def stuckDiffOp : String := "{chain.group(6)}"')
+    ob = re.search(r"let outbound_peers = \|\| self\.iter\(\)\.outbound\(\)\.connected\(\)\.into_iter\(\);\s*"
+                   r"let excess_outgoing_count = outbound_peers\(\)\.count\(\)\.saturating_sub\(max_outbound_count\);\s*if excess_outgoing_count > 0 \{\s*"
+                   r"let mut peer_infos: Vec<_> = outbound_peers\(\)\s*\.map\(\|x\| x\.info\.clone\(\)\)\s*\.filter\(\|x\| !preferred_peers\.contains\(&x\.addr\)\)\s*\.collect\(\);\s*"
+                   r"peer_infos\.sort_unstable_by_key\(\|x\| x\.total_difficulty\(\)\);\s*let mut addrs = peer_infos\s*\.into_iter\(\)\s*\.map\(\|x\| x\.addr\)\s*"
+                   r"\.take\(excess_outgoing_count\)\s*\.collect\(\);\s*rm\.append\(&mut addrs\);", cp)
+    ib = re.search(r"let inbound_peers = \|\| self\.iter\(\)\.inbound\(\)\.connected\(\)\.into_iter\(\);\s*"
+                   r"let excess_incoming_count = inbound_peers\(\)\.count\(\)\.saturating_sub\(max_inbound_count\);\s*if excess_incoming_count > 0 \{\s*"
+                   r"let mut addrs: Vec<_> = inbound_peers\(\)\s*\.filter\(\|x\| !preferred_peers\.contains\(&x\.info\.addr\)\)\s*\.take\(excess_incoming_count\)\s*"
+                   r"\.map\(\|x\| x\.info\.addr\)\s*\.collect\(\);\s*rm\.append\(&mut addrs\);", cp)
+    if not ob or not ib or cp.find("outbound_peers") > cp.find("inbound_peers") or cp.find("for peer in self.iter()") > cp.find("outbound_peers"):
+        die("gen_codec_peers: clean_peers: the excess outbound / inbound rules changed shape or order")
+    out.append("/-- the excess rules, in source order: (direction, counted over, candidates, order, how many) -/")
+    out.append('def cleanExcess : List (String × String × String × String × String) := ['
+               '("outbound", "connected", "not preferred", "total_difficulty ascending", "count - max, saturating"), '
+               '("inbound", "connected", "not preferred", "map order", "count - max, saturating")]')
+    if not re.search(r"for addr in rm \{\s*let _ = peers\.get\(&addr\)\.map\(\|peer\| peer\.stop\(\)\);\s*peers\.remove\(&addr\);", cp):
+        die("gen_codec_peers: clean_peers: the removal loop (stop, remove) changed shape")
+    ac = re.search(r"let enough_outbound = self\.enough_outbound_peers\(\);.*?if (!enough_outbound \|\| !peer\.info\.is_outbound\(\)) \{[\s;]*peers\.insert\(peer_data\.addr, peer\);",
+                   gd._strip_log_macros(gd._strip_comments(peers)), flags=re.S)
+    eo = re.search(r"pub fn enough_outbound_peers\(&self\) -> bool \{\s*self\.iter\(\)\.outbound\(\)\.connected\(\)\.count\(\)\s*(>=|>)\s*self\.config\.(\w+)\(\) as usize", peers)
+    if not ac or not eo:
+        die("gen_codec_peers: add_connected / enough_outbound_peers changed shape")
+    out.append(f'def addConnectedRule : String := "{ac.group(1)}"')
+    out.append(f'def enoughOutbound : String × String := ("{eo.group(1)}", "{eo.group(2)}")')
+    out.append("")
+
     # ---- the per-connection state and the two mutexes of Peer -------------------------------------------------
     writers = re.findall(r"\*self\.state\.write\(\) = State::(\w+);", peer)
     if writers != ["Banned"]:
